@@ -176,6 +176,17 @@ CLAIMED["C05"] = dict(
     technique="symbolic fault points over the real code (executor) + z3 bounded model checking of the lock takeover, replayed on the real code",
     design="§3 C05")
 
+CLAIMED["C01"] = dict(
+    text="Differential bounded symbolic execution of every reachable backend (InMemoryStorage, JournalStorage+replay over a list backend with the "
+         "JSON model, _CachedStorage over the fake RDB, GrpcStorageProxy+servicer with the real protobuf messages over in-memory and over journal) "
+         "in lockstep with an executable transcription of the BaseStorage docstrings: seeded state + every suffix of 2 (quick) / 3 (thorough) symbolic "
+         "calls; after every call return value, exception class and the full readable state are compared (ids up to a bijection, numbers exactly, "
+         "floats by z3 with NaN==NaN).",
+    note="RDBStorage's SQL, Redis, and the gRPC wire are outside (C libraries); values through the proxy are concrete; SpecStorage is the trusted "
+         "reading of the documented contract (parameter compatibility is checked against every earlier record of the name in the study, as RDB and "
+         "journal do)",
+    design="§3 C01")
+
 NOT_APPLICABLE = {
     "C03": "thread/process pre-emption at source-line granularity inside the storage layer cannot be made a symbolic variable over the "
            "real Python code by a solver-based executor; its atomic-step obligations are discharged under C01/C04/C06/C07",
